@@ -14,7 +14,7 @@
 //              5 intrusive, checked_buffer of cfg[4] cells (any size, Exp2 = false): capacity() must be
 //                floor2(cfg[4]) - 1 = cfg[0]; every m_Heap[i] is bounds-checked by the buffer itself (an index
 //                outside the buffer is redirected to a spare cell and reported: no real out-of-bounds access).
-//                Observable only (the model assumes buffer size = capacity + 1, heapify_after_pop visits more cells here).
+//                The model takes the buffer size as cfg[4] (unused tail cells are visited by heapify_after_pop).
 //   operations:  "1 p id" = push item (priority p, identity id)   events  inv_push p id ; ret_push b p id
 //                "2"      = pop                                   events  inv_pop ; ret_pop 1 p id | ret_pop 0 0 0
 //   The comparator orders items by priority only (equal priorities compare equal).
